@@ -159,7 +159,8 @@ Proof.
     cbv zeta. rewrite rv_set_state.
     destruct (c_passive (cf s)); [reflexivity|]. rv_norm. apply rv_send_contact_header.
   - (* OSend *)
-    destruct (closed s); [reflexivity|]. cbv zeta.
+    destruct (closed s); [reflexivity|].
+    destruct (in_term s); [apply rv_emit; reflexivity|]. cbv zeta.
     rewrite rv_emit by reflexivity. rewrite rv_pq_trigger. rv_norm. reflexivity.
   - (* OTerm *)
     destruct (closed s); [reflexivity|].
